@@ -76,6 +76,18 @@ def gen_cases(tier, seed):
         pts = (rng.normal(size=(N, 3)) * 1.2).tolist()  # charges inside the functions, where the Schwarz bound is nearly attained
         q = [float(x) for x in np.exp(rng.uniform(np.log(0.1), np.log(100), size=N))]
         cases.append({"shells": shells, "points": pts, "charges": q, "eri": False, "classes": classes + ["1e", "many-charges:%d" % N, "nsh:%d" % len(ls), "types:" + "".join(tp)], "cost": 200 + N})
+    # long contractions in the repulsion array (8-10 primitives per shell, s and p): positivity needs every block, also those built
+    # through code paths that only long contractions reach
+    for k in range(3 if tier == "quick" else 24):
+        rng = bases.rng_for("C17", seed, tier, "longK-eri", k)
+        c0 = rng.normal(size=3)
+        shells = []
+        for j in range(2):
+            K_ = int(rng.integers(8, 11))
+            e_ = [float(v) for v in np.exp(np.linspace(np.log(0.15), np.log(9.0), K_)) * np.exp(rng.normal(size=K_) * 0.05)]
+            l_ = [1, 0, 1][(k + j) % 3]
+            shells.append({"l": l_, "c": [float(v) for v in c0 + j * rng.normal(size=3) * 0.9], "e": e_, "k": bases.rand_coeffs(rng, l_, e_, 1), "t": "c"})
+        cases.append({"shells": shells, "points": [[float(v) for v in c0]], "charges": [1.0], "eri": True, "classes": ["longK-eri", "eri", "nsh:2"], "cost": 3000})
     # concentric shells of different angular momentum and different coordinate type (pure s or p next to Cartesian d, f, g and
     # the reverse): the Cartesian functions contain the lower harmonics, so these blocks do not vanish
     for k in range(10 if tier == "quick" else 120):
